@@ -1,7 +1,7 @@
 """C14 rolling_window / expanding_window: the indices select exactly the points inside each window."""
 import random
 import numpy as np
-from . import core
+from . import core, layouts
 from .core import Case, cZ, cZraw, cN, cD, clist, cbool, copt
 
 ID = "C14"
@@ -15,14 +15,18 @@ RULE = ("rolling_window and expanding_window on point clouds given as 1-D and 2-
         "shapes >= 2 per direction; regions given (larger and smaller than the cloud) or inferred; expanding windows with unsorted, "
         "repeated and zero sizes and centres on and off the lattice; empty windows; invalid arguments (neither shape nor spacing, both, "
         "window larger than the region, bad adjust, empty cloud without region). Index tuples are read back through ravel_multi_index "
-        "against the input's shape. Non-trivial = the call returns windows for a non-empty cloud; distinct = distinct argument tuples.")
+        "against the input's shape. 2-D inputs (and the extra coordinate) come in varied memory layouts with the same logical element "
+        "sequence - C, Fortran-ordered copies, transposed views of transposed copies, strided windows of larger C / Fortran arrays, slices of "
+        "transposed views, easting and northing with different layouts, non-square shapes - and integer-valued lattice clouds also as "
+        "int64 / int32 arrays; the model always receives the logical C-order ravel. Every call is made twice on the same argument objects "
+        "(identical result, arguments unchanged). Non-trivial = the call returns windows for a non-empty cloud; distinct = distinct argument tuples.")
 ASSUMPTIONS = [
     "scipy cKDTree.query_ball_point(x, r, p=inf) returns the points with max(|de|, |dn|) <= r (closed ball, eps = 0); modelled by a linear scan",
     "floats are read as the exact rationals they denote; on-edge membership is compared exactly (the float subtraction is exact when the distance equals the radius); points within 2^-30 x scale of a window edge but not on it are excluded from membership comparison",
     "window centres compared with tolerance 2^-40 x scale against the closed-form grid of the shrunk region (rounding ties of the extent/spacing quotient within 2^-30 are skipped)",
     "shapes with a single window per direction are not generated: with a region given as Python floats verde raises ZeroDivisionError in its overlap warning helper (outside the property's claims)",
 ]
-TRUSTED = ["harness/c14.py (generators, observation of numpy object arrays / index tuples as integers and exact dyadics)"]
+TRUSTED = ["harness/layouts.py (builds the argument arrays in each memory layout / dtype; replays rebuild them from the same source)", "harness/c14.py (generators, observation of numpy object arrays / index tuples as integers and exact dyadics)"]
 
 ADJ = {0: "spacing", 1: "region", 2: "bogus"}
 
@@ -62,8 +66,14 @@ def cspacing(spacing):
     return "(Some %s)" % dl(spacing)
 
 
-def rolling_case(vd, coords, size, spacing, shape, region, adj, kind):
-    coords = tuple(np.asarray(c, dtype=float) for c in coords)
+def same_tuples(a, b):
+    return len(a) == len(b) and all(len(x) == len(y) and all(np.array_equal(p, q) for p, q in zip(x, y)) for x, y in zip(a, b))
+
+
+def rolling_case(vd, spec, size, spacing, shape, region, adj, kind):
+    """spec: [(values, layout, dtype), ...] (harness/layouts.py); the model gets the logical C-order ravel"""
+    coords = layouts.build(spec)
+    snap = layouts.snapshot(coords)
     east, north = coords[0], coords[1]
     kw = {"size": size}
     if spacing is not None:
@@ -83,34 +93,44 @@ def rolling_case(vd, coords, size, spacing, shape, region, adj, kind):
         if ok:
             works = all(indexing_works(coords, idx[i, j], wc[0][i, j], wc[1][i, j], size / 2)
                         for i in range(idx.shape[0]) for j in range(idx.shape[1])) if idx.shape == wc[0].shape else False
+            # same argument objects again: identical result, arguments untouched
+            wc2, idx2 = vd.rolling_window(coords, **kw)
+            stable = (layouts.unchanged(coords, snap) and all(np.array_equal(a, b) for a, b in zip(wc, wc2))
+                      and idx2.shape == idx.shape and same_tuples(list(idx.ravel()), list(idx2.ravel())))
             obs = {"centres_east": wc[0].tolist(), "centres_north": wc[1].tolist(),
-                   "indices": [[[a.tolist() for a in t] for t in row] for row in idx], "direct_indexing_works": works}
+                   "indices": [[[a.tolist() for a in t] for t in row] for row in idx], "direct_indexing_works": works,
+                   "second_call_identical_and_arguments_unchanged": bool(stable)}
             cobs = "(Some (%s, %s, %s))" % (clist([dl(r) for r in wc[0]]), clist([dl(r) for r in wc[1]]),
                                             clist([clist([ctuple(t) for t in row]) for row in idx]))
             if not works:
                 bad = "indexing"
+            elif not stable:
+                bad = "unstable"
         else:
             obs = {"malformed_output": repr((wc, idx))[:500]}
             bad = "malformed"
     except ValueError:
         obs = "ValueError"
         cobs = "None"
-    if bad:
+    cshape = "None" if shape is None else "(Some (%s, %s))" % (cZ(shape[0]), cZ(shape[1]))
+    creg = "None" if region is None else "(Some %s)" % dl(region)
+    if bad in ("malformed", "unstable"):
         term = "Vboth"
     else:
-        cshape = "None" if shape is None else "(Some (%s, %s))" % (cZ(shape[0]), cZ(shape[1]))
-        creg = "None" if region is None else "(Some %s)" % dl(region)
+        # (when direct indexing failed the tuples are still evaluated in Coq, which then reports the failing window)
         term = "c14_rolling %s %s %s %s %s %s %s %s %s" % (
-            dl(east.ravel()), dl(north.ravel()), clist([cN(d) for d in east.shape]), cD(size), cspacing(spacing), cshape, creg, cZ(adj), cobs)
-    repro = ("import verde, numpy as np; c=tuple(np.array(a) for a in %r); print(verde.rolling_window(c, **%r))"
-             % ([c.tolist() for c in coords], kw))
-    inp = {"fn": "rolling_window", "coordinates": [c.tolist() for c in coords], "size": size, "spacing": spacing, "shape": shape,
+            dl(layouts.logical(east)), dl(layouts.logical(north)), clist([cN(d) for d in east.shape]), cD(size), cspacing(spacing), cshape, creg, cZ(adj), cobs)
+        if bad == "indexing":
+            term = "(match %s with Vok | Vskip => Vboth | v => v end)" % term
+    repro = layouts.repro_args(spec) + "import verde; print(verde.rolling_window(c, **%r))" % (kw,)
+    inp = {"fn": "rolling_window", "coordinates": layouts.describe(spec), "size": size, "spacing": spacing, "shape": shape,
            "region": None if region is None else [float(r) for r in region], "adjust": ADJ[adj]}
     return Case(inp, obs, term, repro, kind, nontrivial=(obs != "ValueError" and east.size > 0))
 
 
-def expanding_case(vd, coords, center, sizes, kind):
-    coords = tuple(np.asarray(c, dtype=float) for c in coords)
+def expanding_case(vd, spec, center, sizes, kind):
+    coords = layouts.build(spec)
+    snap = layouts.snapshot(coords)
     east, north = coords[0], coords[1]
     bad = None
     try:
@@ -118,24 +138,30 @@ def expanding_case(vd, coords, center, sizes, kind):
         ok = isinstance(out, list) and all(tuple_ok(t, east.ndim) for t in out)
         if ok:
             works = len(out) == len(sizes) and all(indexing_works(coords, t, center[0], center[1], s / 2) for t, s in zip(out, sizes))
-            obs = {"indices": [[a.tolist() for a in t] for t in out], "direct_indexing_works": works}
+            out2 = vd.expanding_window(coords, center=center, sizes=sizes)
+            stable = layouts.unchanged(coords, snap) and same_tuples(out, out2)
+            obs = {"indices": [[a.tolist() for a in t] for t in out], "direct_indexing_works": works,
+                   "second_call_identical_and_arguments_unchanged": bool(stable)}
             cobs = "(Some %s)" % clist([ctuple(t) for t in out])
             if not works:
                 bad = "indexing"
+            elif not stable:
+                bad = "unstable"
         else:
             obs = {"malformed_output": repr(out)[:500]}
             bad = "malformed"
     except ValueError:
         obs = "ValueError"
         cobs = "None"
-    if bad:
+    if bad in ("malformed", "unstable"):
         term = "Vboth"
     else:
         term = "c14_expanding %s %s %s %s %s %s %s" % (
-            dl(east.ravel()), dl(north.ravel()), clist([cN(d) for d in east.shape]), cD(center[0]), cD(center[1]), dl(sizes), cobs)
-    repro = ("import verde, numpy as np; c=tuple(np.array(a) for a in %r); print(verde.expanding_window(c, center=%r, sizes=%r))"
-             % ([c.tolist() for c in coords], tuple(center), list(sizes)))
-    inp = {"fn": "expanding_window", "coordinates": [c.tolist() for c in coords], "center": list(center), "sizes": list(sizes)}
+            dl(layouts.logical(east)), dl(layouts.logical(north)), clist([cN(d) for d in east.shape]), cD(center[0]), cD(center[1]), dl(sizes), cobs)
+        if bad == "indexing":
+            term = "(match %s with Vok | Vskip => Vboth | v => v end)" % term
+    repro = layouts.repro_args(spec) + "import verde; print(verde.expanding_window(c, center=%r, sizes=%r))" % (tuple(center), list(sizes))
+    inp = {"fn": "expanding_window", "coordinates": layouts.describe(spec), "center": list(center), "sizes": list(sizes)}
     return Case(inp, obs, term, repro, kind, nontrivial=(obs != "ValueError" and east.size > 0 and len(sizes) > 0))
 
 
@@ -152,16 +178,6 @@ class Uni:
             return x
         y = round(x * 4096) / 4096
         return y if a <= y <= b else x
-
-
-def arrange(rnd, arrs):
-    """1-D, or a 2-D reshape (when the size allows), half of the time each"""
-    m = len(arrs[0])
-    if m >= 2 and rnd.random() < 0.5:
-        divs = [d for d in range(1, m + 1) if m % d == 0]
-        r = rnd.choice(divs)
-        return tuple(np.asarray(a, dtype=float).reshape(r, m // r) for a in arrs)
-    return tuple(np.asarray(a, dtype=float) for a in arrs)
 
 
 def lattice_rolling(rnd):
@@ -183,7 +199,7 @@ def lattice_rolling(rnd):
         spn, spe = (spacing, spacing) if np.isscalar(spacing) else spacing
         if ((width - size) / spe + 1.5) * ((height - size) / spn + 1.5) > 20:
             spacing = 1.5 if mode == "scalar" else (1.5, 2.0)
-    m = rnd.randint(1, 24)
+    m = rnd.choice([1, 2, 4, 6, 6, 8, 10, 12, 12, 15, 18, 20, 24])
     xs = [w + rnd.randint(-2, int(width * 4) + 2) / 4 for _ in range(m)]
     ys = [s + rnd.randint(-2, int(height * 4) + 2) / 4 for _ in range(m)]
     return region, size, spacing, shape, adj, xs, ys
@@ -213,7 +229,7 @@ def random_rolling(rnd, uni):
         spn, spe = (spacing, spacing) if np.isscalar(spacing) else spacing
         if ((width - size) / spe + 1.5) * ((height - size) / spn + 1.5) > 20:
             spacing = (height - size) / 2.2 + 0.01 if mode == "scalar" else ((height - size) / 2.2 + 0.01, (width - size) / 3.1 + 0.01)
-    m = rnd.randint(1, 20)
+    m = rnd.choice([1, 2, 4, 6, 6, 8, 10, 12, 12, 15, 18])
     xs = [uni(w - 0.1 * width, w + 1.1 * width) for _ in range(m)]
     ys = [uni(s - 0.1 * height, s + 1.1 * height) for _ in range(m)]
     return region, size, spacing, shape, adj, xs, ys
@@ -239,29 +255,57 @@ def generate(tier, seed):
             arrs = [xs, ys]
             if i % 5 == 0:
                 arrs.append([rnd.uniform(-1e3, 1e3) for _ in xs])
-            coords = arrange(rnd, arrs)
-            cases.append(rolling_case(vd, coords, size, spacing, shape, region if given else None, adj, stream))
+            cases.append(rolling_case(vd, layouts.arrange(rnd, arrs), size, spacing, shape, region if given else None, adj, stream))
     # docstring examples
     g = vd.grid_coordinates((-5, -1, 6, 10), spacing=1)
-    cases.append(rolling_case(vd, g, 2.0, 2.0, None, None, 0, "docstring"))
-    cases.append(rolling_case(vd, [a.ravel() for a in g], 2.0, 2.0, None, None, 0, "docstring"))
+    cases.append(rolling_case(vd, layouts.from_arrays(g), 2.0, 2.0, None, None, 0, "docstring"))
+    cases.append(rolling_case(vd, layouts.from_arrays([a.ravel() for a in g]), 2.0, 2.0, None, None, 0, "docstring"))
     g2 = vd.grid_coordinates((-10, 5, 0, 20), spacing=3)
-    cases.append(rolling_case(vd, g2, 2.0, 2.0, None, (-5.0, -1.0, 6.0, 10.0), 0, "docstring"))
+    cases.append(rolling_case(vd, layouts.from_arrays(g2), 2.0, 2.0, None, (-5.0, -1.0, 6.0, 10.0), 0, "docstring"))
     g3 = vd.grid_coordinates((-5, -1, 6, 10), spacing=1, extra_coords=20)
-    cases.append(rolling_case(vd, g3, 2.0, 2.0, None, None, 0, "docstring"))
-    cases.append(rolling_case(vd, g, 0.5, None, (2, 3), (-4.6, -1.4, 6.4, 9.6), 0, "empty-windows"))
-    cases.append(rolling_case(vd, g, 4.0, 1.0, None, None, 0, "window-fills-region"))
-    cases.append(expanding_case(vd, g, (-3.0, 8.0), [1.0, 2.0, 4.0], "docstring"))
-    cases.append(expanding_case(vd, [a.ravel() for a in g], (-3.0, 8.0), [1.0, 2.0, 4.0], "docstring"))
-    cases.append(expanding_case(vd, g3, (-3.0, 8.0), [4.0, 1.0, 2.0, 0.0], "docstring"))
-    cases.append(expanding_case(vd, g, (-3.0, 8.0), [], "docstring"))
-    cases.append(expanding_case(vd, g, (20.0, 8.0), [1.0, 3.0], "empty-windows"))
+    cases.append(rolling_case(vd, layouts.from_arrays(g3), 2.0, 2.0, None, None, 0, "docstring"))
+    cases.append(rolling_case(vd, layouts.from_arrays(g), 0.5, None, (2, 3), (-4.6, -1.4, 6.4, 9.6), 0, "empty-windows"))
+    cases.append(rolling_case(vd, layouts.from_arrays(g), 4.0, 1.0, None, None, 0, "window-fills-region"))
+    cases.append(expanding_case(vd, layouts.from_arrays(g), (-3.0, 8.0), [1.0, 2.0, 4.0], "docstring"))
+    cases.append(expanding_case(vd, layouts.from_arrays([a.ravel() for a in g]), (-3.0, 8.0), [1.0, 2.0, 4.0], "docstring"))
+    cases.append(expanding_case(vd, layouts.from_arrays(g3), (-3.0, 8.0), [4.0, 1.0, 2.0, 0.0], "docstring"))
+    cases.append(expanding_case(vd, layouts.from_arrays(g), (-3.0, 8.0), [], "docstring"))
+    cases.append(expanding_case(vd, layouts.from_arrays(g), (20.0, 8.0), [1.0, 3.0], "empty-windows"))
+    # the docstring grid (5 x 5) and a non-square 3 x 5 part of it in every memory layout, easting and northing alike and different
+    for ke in layouts.KINDS:
+        for kn in ("C", "F", "Tslice"):
+            spec = [(g[0].tolist(), ke, "float64"), (g[1].tolist(), kn, "float64"), (g3[2].tolist(), "stridedF", "float64")]
+            cases.append(rolling_case(vd, spec, 2.0, 2.0, None, None, 0, "layout-grid"))
+            cases.append(expanding_case(vd, spec, (-3.0, 8.0), [4.0, 1.0, 2.0], "layout-grid"))
+            spec = [(g[0][:3].tolist(), ke, "float64"), (g[1][:3].tolist(), kn, "float64")]
+            cases.append(rolling_case(vd, spec, 1.0, (1.0, 1.5), None, None, 0, "layout-grid"))
+            cases.append(expanding_case(vd, spec, (-2.0, 7.0), [2.0, 3.0, 0.0], "layout-grid"))
+    # integer-valued lattice clouds passed with integer dtypes (1-D and 2-D, all layouts)
+    for i in range(nroll // 2):
+        m = rnd.choice([4, 6, 6, 8, 10, 12, 12, 15, 18])
+        xs = [rnd.randint(-4, 4) for _ in range(m - 2)] + [-4, 4]
+        ys = [rnd.randint(-3, 3) for _ in range(m - 2)] + [-3, 3]
+        dt = rnd.choice(["int64", "int32"])
+        arrs = [xs, ys] + ([list(range(m))] if i % 3 == 0 else [])
+        spec = layouts.arrange(rnd, arrs, dt=dt, p2d=0.7)
+        if i % 2 == 0:
+            size = rnd.choice([1.0, 2.0, 3.0, 6.0])
+            if rnd.random() < 0.5:
+                sp, sh, adj = rnd.choice([1.0, 1.5, 2.0, (2.0, 3.0)]), None, rnd.choice([0, 1])
+            else:
+                sp, sh, adj = None, rnd.choice([(2, 3), (3, 2), (2, 2), (3, 4)]), 0
+            reg = (-4.0, 4.0, -3.0, 3.0) if rnd.random() < 0.5 else None
+            cases.append(rolling_case(vd, spec, size, sp, sh, reg, adj, "integer-dtype"))
+        else:
+            center = (float(rnd.randint(-3, 3)), float(rnd.randint(-2, 2)))
+            sizes = [rnd.choice([0.0, 1.0, 2.0, 3.0, 5.0, 9.0]) for _ in range(rnd.randint(1, 4))]
+            cases.append(expanding_case(vd, spec, center, sizes, "integer-dtype"))
     # expanding windows
     nexp = 60 if tier == "quick" else 700
     for i in range(nexp):
         lat = rnd.random() < 0.6
         uni = Uni(rnd)
-        m = rnd.randint(1, 30)
+        m = rnd.choice([1, 3, 6, 6, 8, 10, 12, 12, 15, 18, 20, 24, 28])
         if lat:
             xs = [rnd.randint(-12, 12) / 4 for _ in range(m)]
             ys = [rnd.randint(-12, 12) / 4 for _ in range(m)]
@@ -275,17 +319,16 @@ def generate(tier, seed):
             if i % 3 == 0:
                 center = (xs[0], ys[0])
         arrs = [xs, ys] + ([[float(k) for k in range(m)]] if i % 4 == 0 else [])
-        coords = arrange(rnd, arrs)
-        cases.append(expanding_case(vd, coords, center, sizes, "expanding-lattice" if lat else "expanding-random"))
+        cases.append(expanding_case(vd, layouts.arrange(rnd, arrs), center, sizes, "expanding-lattice" if lat else "expanding-random"))
     # invalid arguments
     pts = (np.array([0.0, 1.0, 2.0, 3.0, 4.0]), np.array([0.0, 1.0, 2.0, 1.0, 3.0]))
     for size, sp, sh, reg, adj in [(1.0, None, None, None, 0), (1.0, 1.0, (2, 2), None, 0), (3.5, 1.0, None, None, 0), (3.0, 1.0, None, None, 0),
                                    (1.0, 1.0, None, None, 2), (1.0, 1.0, None, (0.0, 4.0, 0.0, 0.5), 0), (1.0, None, (2, 2), (4.0, 0.0, 0.0, 3.0), 0),
                                    (1.0, (1.0, 1.0, 1.0), None, None, 0)]:
-        cases.append(rolling_case(vd, pts, size, sp, sh, reg, adj, "invalid"))
-    cases.append(rolling_case(vd, (np.zeros(0), np.zeros(0)), 1.0, 1.0, None, None, 0, "invalid"))
-    cases.append(rolling_case(vd, (np.zeros(0), np.zeros(0)), 1.0, 1.0, None, (0.0, 3.0, 0.0, 2.0), 0, "empty-cloud"))
-    cases.append(expanding_case(vd, (np.zeros(0), np.zeros(0)), (0.0, 0.0), [1.0, 2.0], "empty-cloud"))
+        cases.append(rolling_case(vd, layouts.from_arrays(pts), size, sp, sh, reg, adj, "invalid"))
+    cases.append(rolling_case(vd, layouts.from_arrays((np.zeros(0), np.zeros(0))), 1.0, 1.0, None, None, 0, "invalid"))
+    cases.append(rolling_case(vd, layouts.from_arrays((np.zeros(0), np.zeros(0))), 1.0, 1.0, None, (0.0, 3.0, 0.0, 2.0), 0, "empty-cloud"))
+    cases.append(expanding_case(vd, layouts.from_arrays((np.zeros(0), np.zeros(0))), (0.0, 0.0), [1.0, 2.0], "empty-cloud"))
     return cases
 
 
